@@ -449,7 +449,7 @@ func scenarioFault(t *traceWriter, rng *rand.Rand) {
 	scratch := scratchDir()
 	defer os.RemoveAll(scratch)
 	caseNo := 0
-	runCase := func(storeKind string, k hk, iface string, drv []string) {
+	runCase := func(storeKind string, k hk, iface string, drv []string, iface2 ...string) {
 		if hangCount >= 3 {
 			return
 		}
@@ -494,6 +494,14 @@ func scenarioFault(t *traceWriter, rng *rand.Rand) {
 		s.drvFaults = drv
 		s.signFail = &signFail
 		s.update(l.id, k.old, cp, k.proof(), fmt.Sprintf("class=fault.%s", k.name))
+		for _, f2 := range iface2 {
+			// a second faulty update straight after the first (the same request again, another fault pattern)
+			if s.dead {
+				break
+			}
+			s.faults = f2
+			s.update(l.id, k.old, cp, k.proof(), fmt.Sprintf("class=fault2.%s", k.name))
+		}
 		s.faults, s.drvFaults = "", nil
 		if s.dead {
 			s.end()
@@ -619,6 +627,24 @@ func scenarioFault(t *traceWriter, rng *rand.Rand) {
 		}
 		for _, d := range drvFaults {
 			runCase("sqldrv", k, "", d)
+		}
+		if thorough() {
+			// every subset of up to three interface-level faults, and pairs of consecutive faulty updates
+			letters := "WRSCNX"
+			for a := 0; a < len(letters); a++ {
+				for b := a + 1; b < len(letters); b++ {
+					for c := b + 1; c < len(letters); c++ {
+						f := string([]byte{letters[a], letters[b], letters[c]})
+						runCase("mem", k, f, nil)
+						runCase("sqlfile2", k, f, nil)
+					}
+				}
+			}
+			for _, f1 := range []string{"S", "C", "R", "X", "N", "W"} {
+				for _, f2 := range []string{"S", "C", "R", "X", "N", ""} {
+					runCase([]string{"mem", "sqlfile2"}[(len(f1)+len(f2)+int(f1[0]))%2], k, f1, nil, f2)
+				}
+			}
 		}
 	}
 }
